@@ -9,7 +9,7 @@ def run(tier, seed):
             "run under the write-journal interposer; for every journal prefix the image is recovered by the real code and the reported term/vote, "
             "membership and node addresses must be the last ACKNOWLEDGED value (or a later submitted one). non-trivial image = image after a file "
             "mutation or marker; distinct = (kind of last mutation before the cut, history feature set)")
-    return c04.drive("C05", tier, seed, "C05", ["meta", "meta", "mixed"], rule)
+    return c04.drive("C05", tier, seed, "C05", ["meta", "meta", "mixed", "snap"], rule)
 
 
 def replay(path):
